@@ -671,7 +671,7 @@ fn cal_insert_1() {
     cal_insert_n::<1>()
 }
 
-//@H props=C15,C04 tier=thorough kind=bounded cap=3000 mem=medium bound="2 stored years, window growth <= 3 years" domain="all bitmaps of valid dates, window anywhere in chrono's range"
+//@H props=C15,C04 tier=deep kind=bounded cap=3000 mem=medium bound="2 stored years, window growth <= 3 years" domain="all bitmaps of valid dates, window anywhere in chrono's range"
 #[cfg_attr(kani, kani::proof)]
 #[cfg_attr(kani, kani::stub_verified(CompactYear::insert))]
 #[cfg_attr(kani, kani::stub_verified(CompactYear::contains))]
@@ -728,7 +728,7 @@ fn cal_first_after_3() {
     cal_first_after_n::<3>(false)
 }
 
-//@H props=C15,C04 tier=thorough kind=bounded cap=3000 mem=medium bound="2 stored years, argument before the window" domain="all bitmaps of valid dates; window anywhere"
+//@H props=C15,C04 tier=deep kind=bounded cap=3000 mem=medium bound="2 stored years, argument before the window" domain="all bitmaps of valid dates; window anywhere"
 #[cfg_attr(kani, kani::proof)]
 #[cfg_attr(kani, kani::unwind(14))]
 #[cfg_attr(verif_replay, test)]
@@ -783,7 +783,7 @@ fn cal_seq2_members() {
     vcover!("cal_seq2.duplicate", d1 == d2);
 }
 
-//@H props=C15 tier=thorough kind=bounded cap=3000 mem=medium bound="two insertions into the empty calendar, both orders, at most 1 year apart" domain="any two dates"
+//@H props=C15 tier=deep kind=bounded cap=3000 mem=medium bound="two insertions into the empty calendar, both orders, at most 1 year apart" domain="any two dates"
 #[cfg_attr(kani, kani::proof)]
 #[cfg_attr(kani, kani::stub_verified(CompactYear::insert))]
 #[cfg_attr(kani, kani::unwind(14))]
@@ -821,7 +821,7 @@ fn cal_eq_implies_same_members() {
     }
 }
 
-//@H props=C15,C04 tier=thorough kind=bounded cap=3000 mem=medium bound="2 stored years, at most 2 members" domain="positions symbolic, window anywhere"
+//@H props=C15,C04 tier=deep kind=bounded cap=3000 mem=medium bound="2 stored years, at most 2 members" domain="positions symbolic, window anywhere"
 #[cfg_attr(kani, kani::proof)]
 #[cfg_attr(kani, kani::unwind(14))]
 #[cfg_attr(verif_replay, test)]
@@ -845,7 +845,7 @@ fn cal_iter_2() {
     vcover!("cal_iter.two_years", n == 2 && prev.map_or(false, |p| p.year() > c.first_year));
 }
 
-//@H props=C15,C04 tier=thorough kind=bounded cap=3000 mem=medium bound="1 stored year; stream = calendar ++ empty calendar" domain="all bit patterns, any first_year"
+//@H props=C15,C04 tier=deep kind=bounded cap=3000 mem=medium bound="1 stored year; stream = calendar ++ empty calendar" domain="all bit patterns, any first_year"
 #[cfg_attr(kani, kani::proof)]
 #[cfg_attr(kani, kani::unwind(14))]
 #[cfg_attr(verif_replay, test)]
@@ -904,7 +904,7 @@ fn year_contains_contract() {
     vcover!("year_contains_contract.reachable", true);
 }
 
-//@H props=C15 tier=thorough kind=complete cap=3000 mem=heavy domain="12 symbolic months x ghost query"
+//@H props=C15 tier=deep kind=complete cap=3000 mem=heavy domain="12 symbolic months x ghost query"
 #[cfg_attr(kani, kani::proof_for_contract(CompactYear::first))]
 #[cfg_attr(kani, kani::stub_verified(CompactMonth::first))]
 #[cfg_attr(kani, kani::unwind(14))]
@@ -916,7 +916,7 @@ fn year_first_contract() {
     vcover!("year_first_contract.reachable", true);
 }
 
-//@H props=C15 tier=thorough kind=complete cap=3000 mem=heavy domain="12 symbolic months x (month, day) x ghost query"
+//@H props=C15 tier=deep kind=complete cap=3000 mem=heavy domain="12 symbolic months x (month, day) x ghost query"
 #[cfg_attr(kani, kani::proof_for_contract(CompactYear::first_after))]
 #[cfg_attr(kani, kani::stub_verified(CompactMonth::first_after))]
 #[cfg_attr(kani, kani::stub_verified(CompactMonth::first))]
